@@ -4,7 +4,7 @@ set -u
 seed=$1; shift
 cd /verif
 git -C /repo diff --quiet || { echo "/repo has uncommitted changes"; exit 3; }
-git -C /repo apply "$(realpath $seed/patch.diff)" || { echo "patch does not apply"; exit 3; }
+git -C /repo apply "$(realpath $seed/patch.diff)" 2>/dev/null || git -C /repo apply -C1 "$(realpath $seed/patch.diff)" || { echo "patch does not apply"; exit 3; }
 for id in "$@"; do
   ./verif check "$id" 2>&1 | grep -E "VIOLATION|^  at|^  [a-z]|BROKEN|exit [0-9]" | head -${LINES_MAX:-12}
 done
